@@ -275,7 +275,7 @@ func init() {
 		Real: []string{"codecs.VP9Payloader.Payload", "codecs.VP9Packet.Unmarshal", "codecs.VP9Packet.IsPartitionHead", "vp9.Header.Unmarshal (through the payloader)"},
 		Stub: []string{"VP9 uncompressed-header bit writer", "FIFO wire + receive buffer pool", "independent VP9 RTP descriptor writer", "truncating link of the foreign peer"},
 		Assumptions: []string{
-			"frames with show_existing_frame=1 are not generated (the statement is about frames with a coded header)",
+			"frames with show_existing_frame=1 (1-2 byte frames) are held to losslessness, B/E and picture-id continuity only; P and the scalability structure are not asserted for them",
 			"width/height are compared modulo 2^16 (the scalability structure has 16-bit fields; 65536 cannot be carried)",
 			"SID is drawn in 0-4: pion documents a deliberate limit of 5 spatial layers",
 		},
@@ -327,8 +327,11 @@ func runC12(c *core.Ctx) {
 		if f.key && (f.width == 65536 || f.height == 65536) {
 			c.Probe("width-65536")
 		}
-		if len(ps) > 1 || (f.key && !flex) {
+		if len(ps) > 1 || (f.key && !flex) || f.showExisting {
 			nontrivial = true
+		}
+		if f.showExisting {
+			c.Probe("show-existing-frame")
 		}
 		if len(fpParts) < 6 {
 			fpParts = append(fpParts, uint64(f.profile)<<8|b2u(f.key)<<7|uint64(f.colorSpace)<<4|uint64(minI(len(ps), 3)))
@@ -375,7 +378,7 @@ func runC12(c *core.Ctx) {
 			c.Violate("shape", "C12/shape/f-bit", "F=%v in %s mode", rx.F, map[bool]string{true: "flexible", false: "non-flexible"}[flex])
 			return
 		}
-		if !flex {
+		if !flex && !f.showExisting { // a show-existing frame is neither a key frame nor inter-predicted: only lossless / B / E / picture id apply
 			if rx.P != !f.key {
 				c.Violate("shape", "C12/shape/p-bit", "frame %d key=%v but P=%v", d.frame, f.key, rx.P)
 				return
